@@ -50,7 +50,7 @@ Proof.
   unfold fuse_fires, fuse_given. intros Ef.
   destruct kind as [|[|kind]]; [| |discriminate]; destruct o; try discriminate.
   - destruct (zero_rule_ok c r); [|discriminate]. destruct (checked_mul r c); [|discriminate].
-    destruct ((n <=? cf_cap cf)%N && (S k <? N.to_nat n)); inversion Ef; subst; cbn [h_td ob_dropped ob_leaked].
+    destruct ((n <=? cf_cap cf)%N && (N.of_nat (S k) <? n)%N); inversion Ef; subst; cbn [h_td ob_dropped ob_leaked].
     rewrite app_nil_r. apply Permutation_refl.
   - destruct (Nat.ltb_spec (S k) (length (data (h_td h)))); inversion Ef; subst; cbn [h_td data ob_dropped ob_leaked].
     rewrite app_nil_r. set (old := data (h_td h)).
@@ -62,7 +62,7 @@ Proof.
     destruct ((n =? N.of_nat (length d))%N && (k <? length d)); inversion Ef; subst; cbn [h_td ob_dropped ob_leaked].
     rewrite app_nil_r. apply Permutation_app_head. apply Permutation_app_comm.
   - destruct (zero_rule_ok c r); [|discriminate]. destruct (checked_mul c r); [|discriminate].
-    destruct ((n <=? cf_cap cf)%N && (k <? N.to_nat n)); inversion Ef; subst; cbn [h_td ob_dropped ob_leaked].
+    destruct ((n <=? cf_cap cf)%N && (N.of_nat k <? n)%N); inversion Ef; subst; cbn [h_td ob_dropped ob_leaked].
     rewrite app_nil_r. apply Permutation_refl.
 Qed.
 
